@@ -14,6 +14,8 @@ import Mathlib.Tactic.Positivity
 import Mathlib.Tactic.NormNum
 import Mathlib.Algebra.Order.Field.Basic
 import Mathlib.Algebra.Order.Field.Rat
+import Mathlib.Analysis.Real.Sqrt
+import Mathlib.Algebra.Order.Floor.Semiring
 
 namespace OdcGeo.C07
 set_option linter.unusedSectionVars false
@@ -497,5 +499,41 @@ theorem fuelRat_sufficient (r L : Rat) (p q : Pt Rat) (hr : 0 < r) (_hL : 0 ≤ 
 example : EdgeOk (⟨fun _ _ => 5, fuelRat⟩ : Env Rat) 1 ⟨0, 0⟩ ⟨3, 4⟩ := by
   refine ⟨by norm_num [dist2], by norm_num, ?_⟩
   exact fuelRat_sufficient 1 5 ⟨0, 0⟩ ⟨3, 4⟩ (by norm_num) (by norm_num) (by norm_num [dist2])
+
+/-! ### the reals: no hypothesis on shapely is left -/
+
+/-- shapely over the reals: the Euclidean length, and `⌈len / r⌉` loop iterations as fuel -/
+noncomputable def envReal : Env ℝ where
+  len := fun p q => Real.sqrt (dist2 p q)
+  fuel := fun r p q => ⌈Real.sqrt (dist2 p q) / r⌉₊
+
+theorem envReal_edgeOk (r : ℝ) (hr : 0 < r) (p q : Pt ℝ) : EdgeOk envReal r p q where
+  len_sq := Real.mul_self_sqrt (dist2_nonneg p q)
+  len_nonneg := Real.sqrt_nonneg _
+  fuel_ok := by
+    show Real.sqrt (dist2 p q) < ((⌈Real.sqrt (dist2 p q) / r⌉₊ : ℝ) + 1) * r
+    have h := Nat.le_ceil (Real.sqrt (dist2 p q) / r)
+    rw [div_le_iff₀ hr] at h
+    linarith
+
+theorem envReal_coordsOk (r : ℝ) (hr : 0 < r) : ∀ coords : List (Pt ℝ), CoordsOk envReal r coords
+  | [] => trivial
+  | p :: rest => by
+    show EdgesOk envReal r p rest
+    induction rest generalizing p with
+    | nil => trivial
+    | cons q rest ih => exact ⟨envReal_edgeOk r hr p q, ih q⟩
+
+/-- **Over the real numbers, with the true Euclidean length, no hypothesis is left**: every
+consecutive pair of `densify`'s output is at distance `≤ r`. -/
+theorem densify_gap_le_real (r : ℝ) (coords out : List (Pt ℝ))
+    (h : densify envReal r coords = .ok out) : GapsLe r out := by
+  have hr : 0 < r := (densify_ok shortEnough envReal r coords out h).1
+  exact densify_gap_le envReal r coords out (envReal_coordsOk r hr coords) h
+
+/-- … and so for every geometry kind -/
+theorem segmented_gap_le_real (r : ℝ) (hr : 0 < r) (g g' : Geom ℝ)
+    (h : segmentize envReal r g = .ok g') : ∀ c' ∈ rings g', GapsLe r c' :=
+  segmented_gap_le envReal r g g' h (fun c _ => envReal_coordsOk r hr c)
 
 end OdcGeo.C07
